@@ -4,7 +4,7 @@ An Entry describes what the *image* should contain. The generator is structural,
 sizes sit on block boundaries, contents are built from zero blocks, duplicates, shared tails,
 compressible and incompressible runs, because those are what steer the block processor.
 """
-import os, stat, random, hashlib
+import re, os, stat, random, hashlib
 
 DIR, FILE, SLINK, CHR, BLK, FIFO, SOCK, LINK = "dir", "file", "slink", "chr", "blk", "fifo", "sock", "link"
 
@@ -103,6 +103,15 @@ def gen_name(r, hostile):
     if b in (b".", b".."):
         b = b"x" + b
     return b
+
+
+_SORT_PLAIN = re.compile(rb"^[A-Za-z0-9_\-.,+=/]+$")
+
+
+def sort_name(path):
+    """file name as written into a gensquashfs sort file. Quoted names never match in this code base (decode_filename() unquotes in
+    place without terminating the string - observed, outside the listed properties, see DESIGN.md), so plain names are written bare."""
+    return path if _SORT_PLAIN.match(path) else quote(path)
 
 
 def gen_tree(r, bs=4096, nfiles=8, ndirs=3, hostile=False, specials=True, xattrs=False, hardlinks=False,
